@@ -105,3 +105,183 @@ def replay(su, sch, harness, name, script, kind, rules, U=8):
             elif l != T:
                 raise RuntimeError("native state did not evaluate to a constant")
     return bool(failing), failing
+
+
+# ---------------------------------------------------------------------------------------------
+# C05: witnesses for violated API effects: a history of calls from new() (no close), then the failing call
+class RefModel:
+    """reference reading of C05 for histories without close(): explicit facts modulo an explicit union-find"""
+
+    def __init__(self, sch):
+        self.sch = sch
+        self.n = {t: 0 for t in sch.types}
+        self.par = {t: [] for t in sch.types}
+        self.facts = {r.name: [] for r in sch.user_rels()}
+        self.equated = False
+
+    def root(self, t, x):
+        while self.par[t][x] != x:
+            x = self.par[t][x]
+        return x
+
+    def canon(self, rel, row):
+        return tuple(self.root(t, x) for t, x in zip(self.sch.rels[rel].types, row))
+
+    def new(self, t):
+        self.par[t].append(self.n[t])
+        self.n[t] += 1
+        return self.n[t] - 1
+
+    def equate(self, t, a, b):
+        ra, rb = self.root(t, a), self.root(t, b)
+        if ra != rb:
+            self.par[t][ra] = rb
+            self.equated = True
+
+    def holds(self, rel, row):
+        cr = self.canon(rel, row)
+        return any(self.canon(rel, f) == cr for f in self.facts[rel])
+
+    def values(self, rel, args):
+        R = self.sch.rels[rel]
+        ca = tuple(self.root(t, x) for t, x in zip(R.types[:-1], args))
+        return [f[-1] for f in self.facts[rel] if tuple(self.root(t, x) for t, x in zip(R.types[:-1], f[:-1])) == ca]
+
+
+def search_effects(su, U, k, name, timeout_s=300, solver="kissat"):
+    import lemmas as L
+    t0 = time.time()
+    h = H.SymHistory(su, U, None)
+    c = h.c
+    h.precreate()
+    for i in range(k):
+        h.sym_call(i)
+    ctx2, goal = L.lemma_api_effects(su, name, given=(h.ctx, h.I, h.sch, h.m))
+    bound = c.orl([g for g, kk, _ in h.ctx.events if kk in ("bound", "compact")])
+    bad = c.orl([-l for _, l in goal.items])
+    try:
+        r, model = terms.solve(c, goal.assume + h.assume + [-bound, bad], solver=solver, timeout_s=timeout_s)
+    except terms.SolverError as ex:
+        return None, "solver: %s" % ex
+    if r == "unsat":
+        return None, "no close-free history with U=%d, %d calls violates the effects of %s" % (U, k, name)
+    script = h.decode(model)
+
+    def val(x):
+        if isinstance(x, int):
+            return x
+        for kk, g in V.cases_of(x).items():
+            if c.evaluate([g], model)[0]:
+                return kk
+        return 0
+    final = [name]
+    for a in goal.args:
+        if isinstance(a, V.EnumV):
+            for vn, (g, payload) in a.alts.items():
+                if c.evaluate([g], model)[0]:
+                    final += [vn] + [str(val(x)) for x in payload]
+        else:
+            final.append(str(val(a)))
+    vals = c.evaluate([l for _, l in goal.items], model)
+    failing = [lab for (lab, _), v in zip(goal.items, vals) if not v]
+    return script + [" ".join(final)], {"U": U, "k": k, "failing": failing[:5], "nodes": c.n}
+
+
+def replay_effects(su, sch, harness, name, script):
+    """native run of a close-free script; every return value and follow-up query is compared with the reference model"""
+    from interp import ty_name
+    import re as _re
+    ref = RefModel(sch)
+    lines = []
+    expect = []      # (line index in output 'ret' sequence, description, predicate on the native string)
+    prog = su.prog
+
+    def queries_after():
+        q = []
+        for t in sch.types:
+            for x in range(ref.n[t]):
+                q.append(("root_%s %d" % (t, x), ("root", t, x)))
+                for y in range(ref.n[t]):
+                    q.append(("are_equal_%s %d %d" % (t, x, y), ("eq", t, x, y)))
+        if not ref.equated:
+            for R in sch.user_rels():
+                for f in ref.facts[R.name]:
+                    if R.kind == "pred":
+                        q.append(("%s %s" % (R.name, " ".join(map(str, f))), ("holds", R.name, f)))
+                    else:
+                        q.append(("%s %s" % (R.name, " ".join(map(str, f[:-1]))), ("defined", R.name, f)))
+                q.append(("iter_%s" % R.name, ("iter", R.name)))
+        return q
+    plan = []
+    for l in script:
+        w = l.split()
+        if w[0].startswith("close"):
+            return False, ["history contains a close: outside the reference model of this replay"]
+        plan.append((l, ("call", w)))
+    out_lines = [l for l, _ in plan]
+    rc, out, err = harness.run(name, out_lines, timeout=60)
+    if rc != 0:
+        return True, ["native run panics: " + err.strip().split("\n")[0][:200]]
+    rets = [e[1] for e in N.parse_output(out) if e[0] == "ret"]
+    nt = set(prog.newtypes)
+    problems = []
+    # drive the reference model with the native return values where the property leaves a choice (define_ on defined terms)
+    for (l, (_, w)), r in zip(plan, rets):
+        r = H.normalise_native_ret(r, nt)
+        fn = w[0]
+        a = [int(x) for x in w[1:] if x.isdigit()]
+        if fn.startswith("new_") and len(w) == 1:
+            t = fn[4:]
+            e = ref.new(t)
+            if r != str(e):
+                problems.append("%s returned %s, expected the fresh id %d" % (l, r, e))
+        elif fn.startswith("equate_"):
+            ref.equate(fn[7:], a[0], a[1])
+        elif fn.startswith("insert_"):
+            ref.facts[fn[7:]].append(tuple(a))
+        elif fn.startswith("define_"):
+            rel = fn[7:]
+            R = sch.rels[rel]
+            vals = ref.values(rel, a)
+            t = R.types[-1]
+            if vals:
+                if not r.isdigit() or not any(ref.root(t, int(r)) == ref.root(t, v) for v in vals):
+                    problems.append("%s returned %s although the term is defined with value(s) %s" % (l, r, vals))
+            else:
+                e = ref.new(t)
+                if r != str(e):
+                    problems.append("%s returned %s, expected the fresh id %d" % (l, r, e))
+                ref.facts[rel].append(tuple(a) + (e,))
+        elif fn.startswith("new_"):
+            # new_<enum>(case): treated as a define_ of the constructor (ids checked by C15); resynchronise counts
+            pass
+    # follow-up queries on the final state
+    qs = queries_after()
+    rc, out, err = harness.run(name, out_lines + [q for q, _ in qs], timeout=60)
+    if rc != 0:
+        return True, ["native run panics in follow-up queries: " + err.strip().split("\n")[0][:200]]
+    rets2 = [e[1] for e in N.parse_output(out) if e[0] == "ret"][len(plan):]
+    for (q, what), r in zip(qs, rets2):
+        r = H.normalise_native_ret(r, nt)
+        if what[0] == "eq":
+            _, t, x, y = what
+            exp = "true" if ref.root(t, x) == ref.root(t, y) else "false"
+            if r != exp:
+                problems.append("%s = %s, expected %s" % (q, r, exp))
+        elif what[0] == "root":
+            _, t, x = what
+            if not r.isdigit() or ref.root(t, int(r)) != ref.root(t, x):
+                problems.append("%s = %s is outside the class of %d" % (q, r, x))
+        elif what[0] == "holds":
+            if r != "true":
+                problems.append("%s = %s although the tuple was inserted and no equate_ happened" % (q, r))
+        elif what[0] == "defined":
+            if r == "None":
+                problems.append("%s = None although the function was defined there" % q)
+        elif what[0] == "iter":
+            rel = what[1]
+            rows = [tuple(int(x) for x in _re.findall(r"\d+", m)) for m in _re.findall(r"\(([^()]*)\)", r)] if "(" in r else [(int(x),) for x in _re.findall(r"\d+", r)]
+            want = sorted(set(ref.facts[rel]))
+            if sorted(rows) != want:
+                problems.append("iter_%s = %s, expected exactly %s (each once)" % (rel, sorted(rows), want))
+    return bool(problems), problems
